@@ -84,12 +84,12 @@ Qed.
 
 Definition post (r0 : rd) (stk' : list ae) (tgt' : option inst) (ta' : option addr) (r' : rd) (pend' : nat) : Prop :=
   r_m r' = r_m r0 /\ wf r' /\ r_env r' = r_env r0 /\ (r_stack r' <> [] -> r_done r' = None) /\
-  links (tl stk') r' pend' /\ (ta' = None -> pend' = 0) /\ (tgt' = None -> ta' = None) /\ (ta' <> None -> tgt' <> None) /\
+  links (tl stk') r' pend' /\ (ta' = None -> pend' = 0) /\ (tgt' = None -> ta' = None) /\ (ta' = None -> tgt' = None) /\
   closed_is r' ta' /\ stk' <> [] /\ Forall (fun p : ae => snd p <> None) (tl stk') /\ pend' <= length (r_stack r').
 
 Lemma rec_done_a_ok : forall below cur tgt ta r pend stk' tgt' ta' sc,
   wf r -> links below r pend -> (r_stack r <> [] -> r_done r = None) -> pend <= length (r_stack r) ->
-  (ta = None -> pend = 0) -> (tgt = None -> ta = None) -> (ta <> None -> tgt <> None) ->
+  (ta = None -> pend = 0) -> (tgt = None -> ta = None) -> (ta = None -> tgt = None) ->
   (ta = None -> closed_is r (snd cur)) ->
   (ta = None -> e_node (fst cur) <> None -> snd cur <> None) ->
   Forall (fun p : ae => snd p <> None) below ->
@@ -126,7 +126,7 @@ Proof.
                  end
                else inr (tgt, ta, [])) = inr (tgt1, ta1, sc1) ->
               exec_script sc1 r ta pend = Some (r, ta1, pend) /\
-              (ta1 = None -> pend = 0) /\ (tgt1 = None -> ta1 = None) /\ (ta1 <> None -> tgt1 <> None) /\ closed_is r ta1 /\
+              (ta1 = None -> pend = 0) /\ (tgt1 = None -> ta1 = None) /\ (ta1 = None -> tgt1 = None) /\ closed_is r ta1 /\
               (ta1 = None -> ta = None)).
     { intros tgt1 ta1 sc1 E. destruct (d_tgt d).
       - destruct tgt as [tg|]; [discriminate|]. destruct (e_node (fst cur)) as [nd|] eqn:En; [|discriminate].
@@ -143,7 +143,7 @@ Proof.
               exists r' pend', exec_script sc1 r ta pend = Some (r', ta1, pend') /\
                 r_m r' = r_m r /\ wf r' /\ r_env r' = r_env r /\ (r_stack r' <> [] -> r_done r' = None) /\
                 links (tl (top :: q :: b)) r' pend' /\ (ta1 = None -> pend' = 0) /\ (tgt1 = None -> ta1 = None) /\
-                (ta1 <> None -> tgt1 <> None) /\ closed_is r' ta1 /\ top :: q :: b <> [] /\
+                (ta1 = None -> tgt1 = None) /\ closed_is r' ta1 /\ top :: q :: b <> [] /\
                 Forall (fun p : ae => snd p <> None) (tl (top :: q :: b)) /\ pend' <= length (r_stack r')).
     { intros q top Hq. exists r, pend. split; [exact Hex|split; [reflexivity|split; [exact Hwf|split; [reflexivity|split; [exact Hdn|]]]]].
       split; [|split; [exact Hpend1|split; [exact Htt1|split; [exact Htt1'|split; [exact Hta1|split; [discriminate|]]]]]].
@@ -206,7 +206,7 @@ Qed.
 
 Lemma rec_next_a_ok stk tgt ta r pend stk' tgt' ta' sc :
   wf r -> links (tl stk) r pend -> (r_stack r <> [] -> r_done r = None) -> pend <= length (r_stack r) ->
-  (ta = None -> pend = 0) -> (tgt = None -> ta = None) -> (ta <> None -> tgt <> None) ->
+  (ta = None -> pend = 0) -> (tgt = None -> ta = None) -> (ta = None -> tgt = None) ->
   Forall (fun p : ae => snd p <> None) (tl stk) -> closed_is r ta ->
   rec_next_a stk tgt ta = AOk stk' tgt' ta' sc ->
   exists r' pend', exec_script sc r ta pend = Some (r', ta', pend') /\ post r stk' tgt' ta' r' pend'.
@@ -407,3 +407,308 @@ Section Steps.
           rewrite <- Estk. apply rec_next_step_ok; auto.
   Qed.
 End Steps.
+
+(* ---- Read prologue / Release ---------------------------------------------------------------------------------- *)
+Lemma ups_ok : forall n r,
+  wf r -> (r_stack r <> [] -> r_done r = None) -> n <= length (r_stack r) ->
+  exists r', ups n r = Some r' /\ r_m r' = r_m r /\ wf r' /\ r_env r' = r_env r /\
+    (r_stack r' <> [] -> r_done r' = None) /\ map fst (r_stack r') = skipn n (map fst (r_stack r)).
+Proof.
+  induction n as [|n IH]; intros r Hwf Hdn Hle; simpl.
+  - exists r. auto 10.
+  - destruct (r_stack r) as [|[a ks] up] eqn:Est; [simpl in Hle; lia|].
+    destruct (go_up_wf r a ks up Hwf Est) as (r1 & Eg & Em & W1 & V1 & _ & Hf1 & Hlen1 & Dn1).
+    rewrite Eg. simpl. simpl in Hle.
+    assert (Hle1 : n <= length (r_stack r1)) by (rewrite Hlen1; apply le_S_n; exact Hle).
+    destruct (IH r1 W1 Dn1 Hle1) as (r2 & E2 & M2 & W2 & V2 & Dn2 & Hf2).
+    exists r2. split; [exact E2|split; [congruence|split; [exact W2|split; [congruence|split; [exact Dn2|]]]]].
+    rewrite Hf2, Hf1. reflexivity.
+Qed.
+
+Lemma clear_tgt_a_ok caching a :
+  HInv caching a ->
+  exists a2, clear_tgt_a caching a = Some a2 /\ HInv caching a2 /\ ext caching (r_m (a_rd a)) (r_m (a_rd a2)) /\
+    a_stk a2 = a_stk a /\ a_rest a2 = a_rest a /\ a_tgt a2 = None.
+Proof.
+  intros [Hg (_ & W & _ & Dn & L & P1 & P2 & P3 & Cl & Ne & Fa & Ple)]. unfold clear_tgt_a.
+  destruct (a_ta a) as [x|] eqn:Eta.
+  - destruct Cl as [t [Hlc Hrt]]. rewrite Hlc, Hrt, Pos.eqb_refl.
+    assert (Hlast : match r_stack (a_rd a) with
+                    | [] => exists ta0, r_done (a_rd a) = Some ta0
+                    | (_, ks) :: _ => exists ks' ta0, ks = ks' ++ [ta0]
+                    end).
+    { unfold last_closed in Hlc. destruct (r_stack (a_rd a)) as [|[p ks] up]; [eauto|].
+      destruct (rev ks) as [|k rest] eqn:Er; [discriminate|]. exists (rev rest), k.
+      rewrite <- (rev_involutive ks), Er. reflexivity. }
+    destruct (remove_last_wf caching (a_rd a) Hg W Hlast) as (r1 & E1 & G1 & W1 & V1 & X1 & Hf1 & Dn1).
+    rewrite E1. simpl.
+    assert (Hlen1 : length (r_stack r1) = length (r_stack (a_rd a))).
+    { apply (f_equal (@length _)) in Hf1. rewrite !map_length in Hf1. exact Hf1. }
+    assert (Hple1 : a_pending a <= length (r_stack r1)) by lia.
+    destruct (ups_ok (a_pending a) r1 W1 Dn1 Hple1) as (r2 & E2 & M2 & W2 & V2 & Dn2 & Hf2).
+    rewrite E2. simpl. eexists. split; [reflexivity|]. simpl.
+    split; [|split; [rewrite M2; exact X1|auto]].
+    split; [simpl; rewrite M2; exact G1|]. unfold post. simpl.
+    split; [reflexivity|split; [exact W2|split; [reflexivity|split; [exact Dn2|split; [|]]]]].
+    + unfold links in *. change (skipn 0 (r_stack r2)) with (r_stack r2).
+      assert (Hmm : forall l : list aframe, map (fun f : aframe => Some (fst f)) l = map Some (map fst l))
+        by (intros; rewrite map_map; reflexivity).
+      rewrite L, !Hmm, Hf2, Hf1. rewrite <- skipn_map. reflexivity.
+    + split; [auto|split; [auto|split; [auto|split; [exact Logic.I|split; [exact Ne|split; [exact Fa|lia]]]]]].
+  - eexists. split; [reflexivity|]. simpl. split; [|split; [apply ext_refl|auto]].
+    split; [exact Hg|]. unfold post. simpl.
+    split; [reflexivity|split; [exact W|split; [reflexivity|split; [exact Dn|split; [exact L|]]]]].
+    split; [exact P1|split; [auto|split; [auto|split; [exact Logic.I|split; [exact Ne|split; [exact Fa|exact Ple]]]]]].
+Qed.
+
+(* ---- a whole run ------------------------------------------------------------------------------------------------ *)
+(* a delivered node: the state is good, the address handed out is the root of a live subtree
+   whose links are sound *)
+Definition hdeliv_ok (caching : bool) (d : mach * addr * inst) : Prop :=
+  let m := fst (fst d) in
+  good caching m /\
+  exists ta, root ta = snd (fst d) /\ (forall b, b ∈ addrs ta -> b ∈ addrs_f (m_F m)) /\
+    exists par pv nx, tree_ok (heap (m_s m)) par pv nx ta.
+
+Section RunOk.
+  Variable caching : bool.
+  Variable step_a : hst -> option astep.
+  Hypothesis Hstep : forall a, HInv caching a -> exists s, step_a a = Some s /\ step_post caching a s.
+
+  Lemma run_a_ok : forall fuel a, HInv caching a ->
+    exists a' ds, run_a caching step_a fuel a = Some (a', ds) /\ HInv caching a' /\
+      ext caching (r_m (a_rd a)) (r_m (a_rd a')) /\ Forall (hdeliv_ok caching) ds.
+  Proof.
+    induction fuel as [|f IH]; intros a Hinv; simpl.
+    - exists a, []. split; [reflexivity|split; [exact Hinv|split; [apply ext_refl|constructor]]].
+    - destruct (Hstep a Hinv) as (s & Es & Hpost). rewrite Es. simpl.
+      destruct s as [a1|[t|e] a1]; simpl in Hpost.
+      + destruct Hpost as [Hinv1 X1]. destruct (IH a1 Hinv1) as (a2 & ds & E2 & Hinv2 & X2 & Hds).
+        exists a2, ds. split; [exact E2|split; [exact Hinv2|split; [eapply ext_trans; eauto|exact Hds]]].
+      + destruct Hpost as [-> Ht].
+        pose proof Hinv as [Hg (_ & W & _ & Dn & L & P1 & P2 & P3 & Cl & Ne & Fa & Ple)].
+        destruct (a_ta a) as [x|] eqn:Eta; [|specialize (P3 eq_refl); congruence].
+        destruct (clear_tgt_a_ok caching a Hinv) as (a2 & E2 & Hinv2 & X2 & _).
+        rewrite E2. simpl.
+        destruct (IH a2 Hinv2) as (a3 & ds & E3 & Hinv3 & X3 & Hds). rewrite E3. simpl.
+        exists a3, ((r_m (a_rd a), x, t) :: ds).
+        split; [reflexivity|split; [exact Hinv3|split; [eapply ext_trans; eauto|]]].
+        constructor; [|exact Hds].
+        destruct Cl as [ta [Hlc Hrt]].
+        destruct (last_closed_ok caching (a_rd a) ta Hg W Hlc) as [Hin Hok].
+        split; [exact Hg|]. exists ta. simpl. auto.
+      + subst a1. exists a, []. split; [reflexivity|split; [exact Hinv|split; [apply ext_refl|constructor]]].
+  Qed.
+End RunOk.
+
+(* ---- NewHierarchyReader / edi.NewReader --------------------------------------------------------------------------- *)
+Lemma init_a_ok caching choose nm m ds us :
+  legal caching choose -> good caching m ->
+  exists a0, init_a caching choose nm m ds us = Some a0 /\ HInv caching a0 /\ ext caching m (r_m (a_rd a0)) /\
+    erase a0 = Hier.init ds us.
+Proof.
+  intros HL Hg. unfold init_a.
+  destruct (tree_init_ok caching choose m DocumentNode (nm ROOT_NAME) FNone HL Hg)
+    as (r0 & x & E0 & G0 & W0 & V0 & X0 & S0 & D0 & _ & _). rewrite E0. simpl. rewrite S0.
+  destruct ds as [|d ds'].
+  - destruct (go_up_wf r0 x [] [] W0 S0) as (r1 & Eg & Em & W1 & V1 & Lc1 & Hf1 & Hlen1 & Dn1).
+    rewrite Eg. simpl. eexists. split; [reflexivity|]. split; [|split; [simpl; rewrite Em; exact X0|reflexivity]].
+    split; [simpl; rewrite Em; exact G0|]. unfold post. simpl.
+    assert (Eb1 : r_stack r1 = []) by (destruct (r_stack r1); [reflexivity|simpl in Hlen1; discriminate]).
+    split; [reflexivity|split; [exact W1|split; [reflexivity|split; [exact Dn1|split; [unfold links; rewrite Eb1; reflexivity|]]]]].
+    split; [auto|split; [auto|split; [auto|split; [exact Logic.I|split; [discriminate|split; [constructor|lia]]]]]].
+  - eexists. split; [reflexivity|]. split; [|split; [exact X0|reflexivity]].
+    split; [exact G0|]. unfold post. simpl.
+    split; [reflexivity|split; [exact W0|split; [reflexivity|split; [intros _; exact D0|split; [unfold links; simpl; rewrite S0; reflexivity|]]]]].
+    split; [auto|split; [auto|split; [auto|split; [exact Logic.I|split; [discriminate|split; [|lia]]]]]].
+    constructor; [simpl; discriminate|constructor].
+Qed.
+
+(* ---- the abstract part of every step is the step of Model/Hier.v ---------------------------------------------------- *)
+Definition rel_res (ra : ares) (r : rres) : Prop :=
+  match ra, r with
+  | AOk stk tgt _ _, ROk stk' tgt' => map fst stk = stk' /\ tgt = tgt'
+  | AErr t, RErr t' => t = t'
+  | APanic s, RPanic s' => s = s'
+  | _, _ => False
+  end.
+
+Lemma rel_prepend pre ra r : rel_res ra r -> rel_res (prepend pre ra) r.
+Proof. destruct ra, r; simpl; auto. Qed.
+
+Ltac split_conds :=
+  repeat (match goal with
+          | |- context [if ?c then _ else _] => destruct c
+          | |- context [match ?c with Some _ => _ | None => _ end] => destruct c
+          end; simpl).
+
+Lemma rec_done_a_erase : forall below cur tgt ta,
+  rel_res (rec_done_a cur below tgt ta) (rec_done (fst cur) (map fst below) tgt).
+Proof.
+  induction below as [|p b IH]; intros cur tgt ta; simpl.
+  - destruct (d_tgt (e_decl (fst cur))); [destruct tgt; [reflexivity|destruct (e_node (fst cur)); simpl; auto]|simpl; auto].
+  - destruct (d_tgt (e_decl (fst cur))).
+    + destruct tgt; [reflexivity|]. destruct (e_node (fst cur)) eqn:En; [|reflexivity]. simpl.
+      split_conds; auto. apply rel_prepend. apply (IH (commit (fst p) (Some i), snd p)).
+    + simpl. split_conds; auto. apply rel_prepend. apply (IH (commit (fst p) (e_node (fst cur)), snd p)).
+Qed.
+
+Lemma rec_next_a_erase stk tgt ta : rel_res (rec_next_a stk tgt ta) (rec_next (map fst stk) tgt).
+Proof.
+  unfold rec_next_a, rec_next. destruct stk as [|cur below]; [reflexivity|]. simpl.
+  destruct (_ <? _); [reflexivity|]. destruct below as [|p b]; [simpl; auto|]. simpl.
+  split_conds; auto. apply rel_prepend. apply rec_done_a_erase.
+Qed.
+
+Definition erase_step (s : astep) : sres :=
+  match s with ACont a => Cont (erase a) | ARet o a => Ret o (erase a) end.
+
+Lemma of_ares_erase ra r rest a rd0 s :
+  rel_res ra r -> of_ares ra rest a rd0 = Some s -> of_rres r rest (erase a) = erase_step s.
+Proof.
+  destruct ra as [stk tgt ta sc|t|site], r as [stk' tgt'|t'|site']; simpl; try contradiction.
+  - intros [<- <-]. destruct (exec_script sc rd0 (a_ta a) (a_pending a)) as [[[r' ta'] pend']|]; simpl; [|discriminate].
+    destruct (opt_eqb Pos.eqb ta ta'); [|discriminate]. intros H. inversion H. reflexivity.
+  - intros <- H. inversion H. reflexivity.
+  - intros <- H. inversion H. reflexivity.
+Qed.
+
+Section Erase.
+  Variable caching : bool.
+  Variable choose : st -> choice.
+  Variable nm : nat -> bytes.
+  Variable cols : nat -> list nat -> list (bytes * bytes).
+  Variable try_leaf : leaf -> list unt -> option nat.
+
+  Lemma instantiate_a_erase cur below n us root_ok a s :
+    a_stk a = cur :: below ->
+    instantiate_a caching choose nm cols cur below n us root_ok a = Some s ->
+    instantiate (fst cur) (map fst below) (a_tgt a) n us root_ok (erase a) = erase_step s.
+  Proof.
+    intros Estk. unfold instantiate_a, instantiate.
+    destruct (length us <? n); [intros H; inversion H; reflexivity|].
+    destruct below as [|p b]; cbn [map].
+    - destruct root_ok; [|intros H; inversion H; reflexivity].
+      destruct (build _ _ _ _ _ _ _) as [body|]; cbn [obnd]; [|discriminate].
+      destruct (r_stack body) as [|[x cs] [|f rest]]; try discriminate.
+      destruct (d_kids (e_decl (fst cur))) as [|k kids].
+      + destruct (go_up body) as [b1|]; cbn [obnd]; [|discriminate].
+        apply of_ares_erase. exact (rec_done_a_erase [] (E (e_decl (fst cur)) (Some (I (d_name (e_decl (fst cur))) (map u_id (firstn n us)) [])) (e_cur (fst cur)) (e_occ (fst cur)), Some x) (a_tgt a) (a_ta a)).
+      + intros H. inversion H. reflexivity.
+    - destruct (e_node (fst p)); [|intros H; inversion H; reflexivity].
+      destruct (snd p) as [parent|]; [|discriminate].
+      destruct (build _ _ _ _ _ _ _) as [body|]; cbn [obnd]; [|discriminate].
+      destruct (r_stack body) as [|[x cs] [|f rest]]; try discriminate.
+      destruct (attach _ _ _ _ _) as [r'|]; cbn [obnd]; [|discriminate].
+      destruct (d_kids (e_decl (fst cur))) as [|k kids].
+      + apply of_ares_erase. exact (rec_done_a_erase (p :: b) (E (e_decl (fst cur)) (Some (I (d_name (e_decl (fst cur))) (map u_id (firstn n us)) [])) (e_cur (fst cur)) (e_occ (fst cur)), Some x) (a_tgt a) (a_ta a)).
+      + intros H. inversion H. reflexivity.
+  Qed.
+
+  Lemma leb_alias x y : PeanoNat.Nat.leb x y = Init.Nat.leb x y.
+  Proof. reflexivity. Qed.
+  Ltac norm_leb := rewrite ?leb_alias.
+
+  Lemma hstep_a_erase a s :
+    hstep_a caching choose nm cols try_leaf a = Some s -> hstep try_leaf (erase a) = erase_step s.
+  Proof.
+    unfold hstep_a, hstep. simpl. destruct (a_tgt a) as [t|] eqn:Ht; [intros H; inversion H; reflexivity|].
+    rewrite ?map_length. norm_leb.
+    destruct (a_rest a) as [|u us].
+    - destruct (length (a_stk a) <=? 1); [intros H; inversion H; reflexivity|].
+      apply of_ares_erase. apply rec_next_a_erase.
+    - destruct (length (a_stk a) <=? 1); [intros H; inversion H; reflexivity|].
+      destruct (a_stk a) as [|cur below] eqn:Estk; [intros H; inversion H; reflexivity|]. cbn [map].
+      destruct (read_rec try_leaf (e_decl (fst cur)) (u :: us)).
+      + intros H. rewrite <- Ht. apply (instantiate_a_erase cur below n (u :: us) false a s Estk H).
+      + apply of_ares_erase. exact (rec_next_a_erase (cur :: below) None (a_ta a)).
+  Qed.
+
+  Lemma edi_step_a_erase a s :
+    edi_step_a caching choose nm cols try_leaf a = Some s -> edi_step try_leaf (erase a) = erase_step s.
+  Proof.
+    unfold edi_step_a, edi_step. simpl. destruct (a_tgt a) as [t|] eqn:Ht; [intros H; inversion H; reflexivity|].
+    rewrite ?map_length. norm_leb.
+    destruct (a_rest a) as [|u us].
+    - destruct (length (a_stk a) <=? 1); [intros H; inversion H; reflexivity|].
+      apply of_ares_erase. apply rec_next_a_erase.
+    - destruct (a_stk a) as [|cur below] eqn:Estk; [intros H; inversion H; reflexivity|]. cbn [map].
+      destruct (read_rec try_leaf (e_decl (fst cur)) (u :: us)).
+      + intros H. rewrite <- Ht. apply (instantiate_a_erase cur below n (u :: us) true a s Estk H).
+      + change (fst cur :: map fst below) with (map fst (cur :: below)). rewrite ?map_length. norm_leb.
+        destruct (length (cur :: below) <=? 1); [intros H; inversion H; reflexivity|].
+        apply of_ares_erase. exact (rec_next_a_erase (cur :: below) None (a_ta a)).
+  Qed.
+
+  Lemma clear_tgt_a_erase a a2 : clear_tgt_a caching a = Some a2 -> erase a2 = clear_tgt (erase a).
+  Proof.
+    unfold clear_tgt_a. destruct (a_ta a).
+    - destruct (last_closed (a_rd a)); [|discriminate]. destruct (Pos.eqb _ _); [|discriminate].
+      destruct (remove_last caching (a_rd a)) as [r1|]; simpl; [|discriminate].
+      destruct (ups (a_pending a) r1); simpl; [|discriminate]. intros H. inversion H. reflexivity.
+    - intros H. inversion H. reflexivity.
+  Qed.
+
+  Lemma run_a_erase (step_a : hst -> option astep) (step : mstate -> sres) :
+    (forall a s, step_a a = Some s -> step (erase a) = erase_step s) ->
+    forall fuel a a' dl, run_a caching step_a fuel a = Some (a', dl) ->
+      fst (Hier.run step fuel (erase a)) = map snd dl.
+  Proof.
+    intros Hst. induction fuel as [|f IH]; intros a a' dl H; simpl in *.
+    - inversion H. reflexivity.
+    - destruct (step_a a) as [s|] eqn:Es; simpl in H; [|discriminate].
+      rewrite (Hst a s Es). destruct s as [a1|[t|e] a1]; simpl.
+      + apply (IH a1 a' dl H).
+      + destruct (a_ta a1); [|discriminate].
+        destruct (clear_tgt_a caching a1) as [a2|] eqn:Ec; simpl in H; [|discriminate].
+        destruct (run_a caching step_a f a2) as [[a3 dl3]|] eqn:Er; simpl in H; [|discriminate].
+        inversion H; subst. rewrite <- (clear_tgt_a_erase a1 a2 Ec).
+        specialize (IH a2 a' dl3 Er). destruct (Hier.run step f (erase a2)) as [ds e]. simpl in *.
+        rewrite IH. reflexivity.
+      + inversion H. reflexivity.
+  Qed.
+End Erase.
+
+(* ---- the statements exported by Props/C12.v ---------------------------------------------------------------------- *)
+Section Top.
+  Variable caching : bool.
+  Variable choose : st -> choice.
+  Variable nm : nat -> bytes.
+  Variable cols : nat -> list nat -> list (bytes * bytes).
+  Variable try_leaf : leaf -> list unt -> option nat.
+  Hypothesis HL : legal caching choose.
+
+  Theorem hier_reader_pf : forall m0 ds us fuel,
+    good caching m0 ->
+    exists a0 a' dl,
+      init_a caching choose nm m0 ds us = Some a0 /\
+      run_a caching (hstep_a caching choose nm cols try_leaf) fuel a0 = Some (a', dl) /\
+      good caching (r_m (a_rd a')) /\ ext caching m0 (r_m (a_rd a')) /\
+      Forall (hdeliv_ok caching) dl /\
+      map snd dl = fst (Hier.run (hstep try_leaf) fuel (Hier.init ds us)).
+  Proof.
+    intros m0 ds us fuel Hg.
+    destruct (init_a_ok caching choose nm m0 ds us HL Hg) as (a0 & E0 & I0 & X0 & Er0).
+    destruct (run_a_ok caching _ (hstep_a_ok caching choose nm cols try_leaf HL) fuel a0 I0)
+      as (a' & dl & E1 & I1 & X1 & Hds).
+    exists a0, a', dl. split; [exact E0|split; [exact E1|split; [exact (proj1 I1)|split; [eapply ext_trans; eauto|split; [exact Hds|]]]]].
+    rewrite <- Er0. symmetry. eapply run_a_erase; [|exact E1]. apply hstep_a_erase.
+  Qed.
+
+  Theorem edi_reader_pf : forall m0 ds us fuel,
+    good caching m0 ->
+    exists a0 a' dl,
+      init_a caching choose nm m0 ds us = Some a0 /\
+      run_a caching (edi_step_a caching choose nm cols try_leaf) fuel a0 = Some (a', dl) /\
+      good caching (r_m (a_rd a')) /\ ext caching m0 (r_m (a_rd a')) /\
+      Forall (hdeliv_ok caching) dl /\
+      map snd dl = fst (Hier.run (edi_step try_leaf) fuel (Hier.init ds us)).
+  Proof.
+    intros m0 ds us fuel Hg.
+    destruct (init_a_ok caching choose nm m0 ds us HL Hg) as (a0 & E0 & I0 & X0 & Er0).
+    destruct (run_a_ok caching _ (edi_step_a_ok caching choose nm cols try_leaf HL) fuel a0 I0)
+      as (a' & dl & E1 & I1 & X1 & Hds).
+    exists a0, a', dl. split; [exact E0|split; [exact E1|split; [exact (proj1 I1)|split; [eapply ext_trans; eauto|split; [exact Hds|]]]]].
+    rewrite <- Er0. symmetry. eapply run_a_erase; [|exact E1]. apply edi_step_a_erase.
+  Qed.
+End Top.
